@@ -22,6 +22,7 @@ FIXED = [
  ("MTGraph::run panicked (or hung)", "C07", "mtsim: FailAt block returns Err on call k -> MTGraph::run unwinds via expect(\"block exit status\"), or never returns when an upstream FftFilterFloat (WaitForFunc) cannot see its reader is gone"),
  ("Graph::run could return while samples", "C06", "graphsim: VectorSource -> ... -> sink added in non-topological order: run() returns after the pass in which the source emitted and returned EOF; sink empty/short"),
  ("FftFilterFloat never ended once its output", "C05", "mtgraph (thorough tier, long source): downstream Add ended early (second input of 0 samples), FftFilterFloat's output full with its reader gone -> its WaitForFunc closure drops the wait verdicts, eof() false -> block thread loops forever, MTGraph::run() never returns"),
+ ("SymbolSync panicked after 2^24 samples", "C15", "enumerated long-run case: SymbolSync fed 2^24+4096 samples of 0 (no sign change: positions are f32 and are never stepped back), then alternating +-1 -> assert 'stream_pos > last_sym_boundary_pos' fails (16776848 not > 16776848); output had stopped at 2^24 as well"),
  ("AVX build of Fir::filter_float", "C11", "kernel case on the AVX build flavour: Fir::filter_float(input longer than taps) panics (assert_eq on lengths) while the scalar kernel returns the dot product"),
  ("derive(Block) sync blocks with three or more inputs", "C19", "build: a harness block with three #[rustradio(in)] streams in sync mode fails to compile (nested tuple vs flat pattern in the generated work())"),
  ("Append mode did not create a missing file", "C17", "iosim: Mode::Append on an absent file -> ENOENT although the documentation says it is created"),
